@@ -92,19 +92,25 @@ theorem allw_nodeHead {S : LSchema} {par : Option Nat} {fc : FrameCtx} {sid : Na
       (fun y hy => allw_cat hy (fun x hx => allw_model hx) (fun z hz => allw_hash hz))
   | some p => exact allw_cat h (fun x hx => allw_some hx (allw_wNum _ _)) (fun z hz => allw_hash hz)
 
+theorem allw_metas {S : LSchema} : ∀ {ms : List Meta} {ops : List Op}, metasOps S ms = some ops → AllW ops
+  | [], ops, h => by
+    simp only [metasOps, Option.some.injEq] at h
+    subst h
+    intro op hop; simp at hop
+  | m :: ms, ops, h => by
+    simp only [metasOps] at h
+    split at h
+    · simp at h
+    · exact allw_cat h (fun x hx => allw_model hx) (fun y hy =>
+        allw_cat hy (fun x hx => allw_str hx) (fun y hy =>
+          allw_cat hy (fun x hx => allw_str hx) (fun y hy => allw_metas hy)))
+
 theorem allw_header {o : POpts} {S : LSchema} {n : DNode} {ops : List Op} (h : headerOps o S n = some ops) : AllW ops := by
   simp only [headerOps] at h
   split at h
   · simp at h
-  · split at h
-    · exact allw_cat h (fun x hx => allw_some hx (allw_wNum _ _)) (fun y hy =>
-        allw_cat hy (fun x hx => allw_model hx) (fun y hy =>
-          allw_cat hy (fun x hx => allw_str hx) (fun y hy =>
-            allw_cat hy (fun x hx => allw_str hx) (fun y hy => allw_some hy (allw_wNum _ _)))))
-    · refine allw_some h ?_
-      intro op hop
-      simp only [List.mem_cons, List.not_mem_nil, or_false] at hop
-      rcases hop with rfl | rfl <;> exact ⟨_, rfl⟩
+  · exact allw_cat h (fun x hx => allw_some hx (allw_wNum _ _)) (fun y hy =>
+      allw_cat hy (fun x hx => allw_metas hx) (fun y hy => allw_some hy (allw_wNum _ _)))
 
 theorem allw_value {ty : LTy} {v : Bytes} {ops : List Op} (h : valueOps ty v = some ops) : AllW ops := by
   simp only [valueOps] at h
